@@ -59,6 +59,17 @@ theorem catch_reraises_limit_error (cfg : Cfg) (fuel : Nat) (ctx : Ctx) (body : 
 example : (evaluate { maxCost := 50, maxDepth := 20, stackSize := 100, handlerCatches := true } 1000
     (.catch_ (.catch_ .spin))).1 = .raised .cost := by decide
 
+/-- non-vacuity: the events the theorem speaks about do occur - an ordinary error is caught and reported ... -/
+example : (evaluate { maxCost := 50, maxDepth := 20, stackSize := 100, handlerCatches := false } 100
+    (.seq (.catch_ .err) (.catch_ (.catch_ .throw_)))).2.evs = [.afterCatch .thrown, .afterCatch .plain] := by decide
+
+/-- ... and the hypotheses of `catch_reraises_limit_error` are met by a spinning body (k = cost) and by unbounded
+    recursion (k = deep) -/
+example : let cfg : Cfg := { maxCost := 50, maxDepth := 20, stackSize := 100, handlerCatches := false }
+    (¬ ((St.start cfg).depth - 1 == cfg.maxDepth - 1) = true) ∧
+    (exec cfg 100 .catch_ .spin (pushCatchFrame (St.start cfg))).1 = .raised .cost ∧
+    (exec cfg 100 .catch_ (.recur 0) (pushCatchFrame (St.start cfg))).1 = .raised .deep := by decide
+
 /-- **eval_bounded** (no hypothesis on the budget, no exclusion of program shapes).  The budget the driver runs
     with is the configured value clamped to at least 1 (rc.cpp / set_eval_limit, `clampCost`).  For every
     configured value, every program shape, every configuration and fuel: the instructions executed in one
